@@ -11,6 +11,9 @@ def fails(obs, case):
         return None
     if obs.startswith("!abort"):
         return "abort"
+    # harnesses that catch a panic per call and report it inside a row (wrapper / JSON component)
+    if "=!panic:" in obs or "~!panic:" in obs or ":!panic:" in obs:
+        return "panic-in-row"
     return None
 
 def classify(case, obs):
